@@ -480,6 +480,11 @@ def triples(seed, count, maxcells=3, minors=(5, 4, 2), max_edits=2, ops=None):
             if t is not None:
                 yield t
                 continue
+        if ops is None and u < 0.71:
+            t = nonascii_conflict_triple(b, rnd)
+            if t is not None:
+                yield t
+                continue
         common = b
         if rnd.random() < 0.3:
             # changes made identically on both sides (agreement), e.g. the same cell inserted by both
@@ -732,6 +737,45 @@ def concurrent_line_triple(b, rnd):
     l['cells'][i]['source'] = ''.join(a_lines)
     r['cells'][i]['source'] = ''.join(b_lines)
     return copy.deepcopy(b), l, r
+
+
+NONASCII_LINES = ["nom = 'Zoë'\n", "nom = '张伟'\n", "nom = 'Ωmega ✓'\n", "nom = '😀 émoji'\n", "nom = 'José'  # año\n"]
+
+
+def nonascii_conflict_triple(b, rnd):
+    "both sides change the same line of one cell's source differently; the text lies outside ASCII (accents, CJK, symbols, emoji)"
+    if not b['cells']:
+        return None
+    i = rnd.randrange(len(b['cells']))
+    base = copy.deepcopy(b)
+    src = "# données\nnom = 'René'\nprint(nom)\n"
+    base['cells'][i]['source'] = src
+    l, r = copy.deepcopy(base), copy.deepcopy(base)
+    la, ra = rnd.sample(NONASCII_LINES, 2)
+    l['cells'][i]['source'] = src.replace("nom = 'René'\n", la)
+    r['cells'][i]['source'] = src.replace("nom = 'René'\n", ra)
+    return base, l, r
+
+
+def nonascii_disjoint_case(k):
+    """(base, local, remote, expected): the sides change different cells of a notebook full of text outside ASCII; local edits the
+    first cell, remote re-runs the third one and (odd k) deletes the markdown cell between them"""
+    minor = (5, 4)[k % 2]
+    cells = [code_cell("# données\nnom = 'René'\nprint(nom)\n", [out_stream('René ✓\n')], 1),
+             md_cell('# Ünïcode 标题\n\ntexte accentué: café, naïve, 😀\n'),
+             code_cell("%timeit f('µ')\n", [out_stream('12.3 µs ± 0.4 µs per loop ███\n')], 2),
+             md_cell('fin ∎\n')]
+    base = notebook(cells, minor, NB_METADATA[k % len(NB_METADATA)])
+    l, r, want = copy.deepcopy(base), copy.deepcopy(base), copy.deepcopy(base)
+    for nb in (l, want):
+        nb['cells'][0]['source'] = "# données\nnom = '%s'\nprint(nom)\n# ajouté: ½ × 2\n" % ['Zoë', '张伟', 'Ωmega', '😀'][k % 4]
+    for nb in (r, want):
+        nb['cells'][2]['execution_count'] = 7
+        nb['cells'][2]['outputs'][0]['text'] = '11.9 µs ± 0.2 µs per loop ███\n'
+    if k % 2:
+        for nb in (r, want):
+            del nb['cells'][1]
+    return base, l, r, want
 
 
 def sweep_pairs(seed, minors=(5, 4)):
